@@ -190,6 +190,11 @@ func (c02) Case(c *core.Ctx) {
 	cfg.Apply()
 	mxj.XMLEscapeChars(!cfg.DecEsc)
 	defer ResetDefaults()
+	if c.R.Intn(8) == 0 {
+		// the other spelling of empty elements (<a></a> instead of <a/>): documented to change nothing else
+		mxj.XmlGoEmptyElemSyntax()
+		c.Count("option:go-empty-element-syntax")
+	}
 	c.Eval()
 	failedCalls(c, 8)
 	f := root.Features()
